@@ -164,16 +164,18 @@ type RWMutex struct {
 	godeadlock.RWMutex
 }
 
+//go:noinline
 func (m *Mutex) Lock() {
 	if !verifTracing.Load() {
 		m.Mutex.Lock()
 		return
 	}
-	g, pcs := verifRequest(unsafe.Pointer(m), false)
+	g, pcs, st := verifRequest(unsafe.Pointer(m), false)
 	m.Mutex.Lock()
-	g.acquired(unsafe.Pointer(m), false, pcs)
+	g.acquired(unsafe.Pointer(m), false, pcs, &st)
 }
 
+//go:noinline
 func (m *Mutex) Unlock() {
 	if !verifTracing.Load() {
 		m.Mutex.Unlock()
@@ -184,16 +186,18 @@ func (m *Mutex) Unlock() {
 	g.maybeYield()
 }
 
+//go:noinline
 func (m *RWMutex) Lock() {
 	if !verifTracing.Load() {
 		m.RWMutex.Lock()
 		return
 	}
-	g, pcs := verifRequest(unsafe.Pointer(m), false)
+	g, pcs, st := verifRequest(unsafe.Pointer(m), false)
 	m.RWMutex.Lock()
-	g.acquired(unsafe.Pointer(m), false, pcs)
+	g.acquired(unsafe.Pointer(m), false, pcs, &st)
 }
 
+//go:noinline
 func (m *RWMutex) Unlock() {
 	if !verifTracing.Load() {
 		m.RWMutex.Unlock()
@@ -204,16 +208,18 @@ func (m *RWMutex) Unlock() {
 	g.maybeYield()
 }
 
+//go:noinline
 func (m *RWMutex) RLock() {
 	if !verifTracing.Load() {
 		m.RWMutex.RLock()
 		return
 	}
-	g, pcs := verifRequest(unsafe.Pointer(m), true)
+	g, pcs, st := verifRequest(unsafe.Pointer(m), true)
 	m.RWMutex.RLock()
-	g.acquired(unsafe.Pointer(m), true, pcs)
+	g.acquired(unsafe.Pointer(m), true, pcs, &st)
 }
 
+//go:noinline
 func (m *RWMutex) RUnlock() {
 	if !verifTracing.Load() {
 		m.RWMutex.RUnlock()
@@ -274,6 +280,7 @@ type verifHeld struct {
 	read bool
 	n    int // recursion count (RLock taken again by the same goroutine)
 	pcs  [verifPCDepth]uintptr
+	st   verifStack // frames of the acquisition (critical-section monitor, locking_verif_sections.go)
 }
 
 type verifG struct {
@@ -281,6 +288,11 @@ type verifG struct {
 	role string
 	held []verifHeld
 	rng  uint64
+	// critical-section monitor: the last finished sections (newest first), pending widening sleep
+	ring     [verifRingSize]verifSec
+	ringN    int
+	widen    *atomic.Uint64
+	widenNew bool
 }
 
 type verifEdgeKey struct{ from, to unsafe.Pointer }
@@ -348,6 +360,7 @@ func VerifLockTraceStart(seed uint64) {
 	verifMaxDepth.Store(0)
 	verifUnknown.Store(0)
 	verifYields.Store(0)
+	verifSectionsReset()
 	verifSeed.Store(seed)
 	verifTracing.Store(true)
 }
@@ -451,10 +464,17 @@ func verifGet() *verifG {
 
 // verifRequest runs before the real lock call: it records one edge from every lock the goroutine
 // still holds to the requested one.
-func verifRequest(p unsafe.Pointer, read bool) (*verifG, [verifPCDepth]uintptr) {
+//
+//go:noinline
+func verifRequest(p unsafe.Pointer, read bool) (*verifG, [verifPCDepth]uintptr, verifStack) {
 	var pcs [verifPCDepth]uintptr
 	runtime.Callers(3, pcs[:])
 	g := verifGet()
+	var st verifStack
+	if !verifSecOff.Load() {
+		verifWalk(1, &st)
+		g.onRequest(p, read, &st)
+	}
 	verifAcquires.Add(1)
 	if len(g.held) > 0 {
 		reentry := false
@@ -472,17 +492,17 @@ func verifRequest(p unsafe.Pointer, read bool) (*verifG, [verifPCDepth]uintptr) 
 		}
 	}
 	g.maybeYield()
-	return g, pcs
+	return g, pcs, st
 }
 
-func (g *verifG) acquired(p unsafe.Pointer, read bool, pcs [verifPCDepth]uintptr) {
+func (g *verifG) acquired(p unsafe.Pointer, read bool, pcs [verifPCDepth]uintptr, st *verifStack) {
 	for i := range g.held {
 		if g.held[i].p == p {
 			g.held[i].n++
 			return
 		}
 	}
-	g.held = append(g.held, verifHeld{p: p, read: read, n: 1, pcs: pcs})
+	g.held = append(g.held, verifHeld{p: p, read: read, n: 1, pcs: pcs, st: *st})
 	if d := uint64(len(g.held)); d > verifMaxDepth.Load() {
 		verifMaxDepth.Store(d)
 	}
@@ -494,7 +514,9 @@ func verifRelease(p unsafe.Pointer) *verifG {
 		if g.held[i].p == p {
 			g.held[i].n--
 			if g.held[i].n == 0 {
+				h := g.held[i]
 				g.held = append(g.held[:i], g.held[i+1:]...)
+				g.onRelease(&h)
 			}
 			return g
 		}
@@ -549,6 +571,11 @@ func verifReentry(p unsafe.Pointer, read bool, h *verifHeld, pcs [verifPCDepth]u
 
 func (g *verifG) maybeYield() {
 	if verifSeed.Load() == 0 {
+		return
+	}
+	if g.widen != nil {
+		// the release that ended the first part of a known split critical section
+		g.widenNow()
 		return
 	}
 	g.rng += 0x9E3779B97F4A7C15
